@@ -319,7 +319,12 @@ Definition c08_union_on_obs (w : wcase) : bool :=
   && perm_b tpkg_eqb (o_inv (w_obs w))
             (flat_map (fun t => inventory_of_calls c (expected_calls c t)) (w_roots w)).
 
-Definition c08_status_once_on_obs (w : wcase) : bool := nodup_b ln_eqb (map fst (o_status (w_obs w))).
+(* one status per plugin, and it is the one the calls of all roots together dictate *)
+Definition c08_status_once_on_obs (w : wcase) : bool :=
+  let c := cfg_of_case w in
+  nodup_b ln_eqb (map fst (o_status (w_obs w)))
+  && list_eqb est_eqb (o_status (w_obs w))
+       (map (fun e => (e, expected_status c (flat_map (expected_calls c) (w_roots w)) e)) (c_exts c)).
 
 Definition c08_multi_domain (w : wcase) : bool := c08_multi_base w.
 
